@@ -14,6 +14,18 @@ def _abs2sum(E, xd):
 def tt_norm(E, s):
     """norm(), plain and squared, tracked (Gram chain) and untracked (QR sweep)"""
     x, xc = tt_input(E, 'x', s['N'], s['R'], s['dtype'], s.get('M'), via=s.get('via'))
+    if s.get('tracked') and s.get('history'):
+        for c in x.cores:
+            c.requires_grad_(True)
+    if s.get('history') == 'norm_set_core_norm':
+        # the reduction is asked for, one core is replaced through the public setter, and it is asked for again:
+        # the second answer must be the value of the tensor the object represents now
+        x.norm(squared=bool(s.get('first_squared')))
+        k = s.get('k', 0)
+        nc = E.tensor('nc', list(xc[k].shape), s['dtype'])
+        x.set_core(k, nc)
+        xc = list(xc)
+        xc[k] = nc
     xd = dense(E, xc)
     ssq = _abs2sum(E, xd)
     if s.get('tracked'):
